@@ -1,7 +1,7 @@
 (* C03 — proofs: the spec order is a total order; the model's CompareVersions,
    satisfies and includesVersion agree with it; acceptance vs grammar. *)
 From Apko Require Import Base.Prelude Base.Regex Spec.VersionSpec Model.Version
-  Generated.Regexes Generated.VersionConsts Generated.C03Version.
+  Generated.Regexes Generated.VersionConsts Generated.C03Version Generated.C03Ladders.
 Open Scope Z_scope.
 
 (* ---------- "good" comparisons: reflexive, antisymmetric, separating, transitive *)
@@ -148,6 +148,46 @@ Proof. unfold decode_pre. destruct (name_of_code pre_suffix_table c) eqn:H; [|di
 Lemma decode_post_in c p : decode_post c = Some p -> In c (codes post_suffix_table).
 Proof. unfold decode_post. destruct (name_of_code post_suffix_table c) eqn:H; [|discriminate]. intros _. eapply name_of_code_in; eauto. Qed.
 
+(* the readable hand-written forms; the model interprets the rungs goextract
+   recognised in the source, and the two are convertible (checked below by
+   reflexivity — this is what fails when a rung is reordered, dropped or altered) *)
+Definition none_to_max (p : Z) : Z := if p =? pre_None then pre_Max else p.
+
+Definition compare_versions_hand (a r : mver) : Z :=
+  match cmp_numbers (m_nums a) (m_nums r) with
+  | Some c => c
+  | None =>
+    ladder (Z.of_nat (List.length (m_nums a))) (Z.of_nat (List.length (m_nums r)))
+   (ladder (m_letter a) (m_letter r)
+   (ladder (none_to_max (m_pre a)) (none_to_max (m_pre r))
+   (ladder (m_pre_n a) (m_pre_n r)
+   (ladder (m_post a) (m_post r)
+   (ladder (m_post_n a) (m_post_n r)
+   (ladder (m_rev a) (m_rev r) cmp_equal))))))
+  end.
+
+Lemma compare_ladder_is_hand a r : compare_versions a r = compare_versions_hand a r.
+Proof. reflexivity. Qed.
+
+Definition includes_version_hand (a r : mver) : option bool :=
+  if (Z.of_nat (List.length (m_nums a)) <? Z.of_nat (List.length (m_nums r))) then Some false
+  else match loop_prefix (m_nums r) (m_nums a) with
+  | None => None
+  | Some false => Some false
+  | Some true =>
+  if (Z.of_nat (List.length (m_nums a)) >? Z.of_nat (List.length (m_nums r))) then Some true
+  else if negb (m_letter r =? 0) && negb (m_letter a =? m_letter r) then Some false
+  else if negb (m_pre r =? pre_None) && negb (m_pre a =? m_pre r) then Some false
+  else if negb (m_pre_n r =? 0) && negb (m_pre_n a =? m_pre_n r) then Some false
+  else if negb (m_post r =? post_None) && negb (m_post a =? m_post r) then Some false
+  else if negb (m_post_n r =? 0) && negb (m_post_n a =? m_post_n r) then Some false
+  else if negb (m_rev r =? 0) && negb (m_rev a =? m_rev r) then Some false
+  else Some true
+  end.
+
+Lemma includes_ladder_is_hand a r : includes_version_res a r = includes_version_hand a r.
+Proof. reflexivity. Qed.
+
 (* the finite facts about the generated tables, decided by computation over
    ALL pairs of table entries (this is what breaks when an enum value, a
    switch row or the None->Max rewrite changes) *)
@@ -264,7 +304,8 @@ Proof.
   destruct (decode_pre (m_pre b)) as [pb|] eqn:Hpb; [|discriminate].
   destruct (decode_post (m_post b)) as [qb|] eqn:Hqb; [|discriminate].
   intros Ha Hb. inversion Ha; inversion Hb; subst; clear Ha Hb.
-  unfold compare_versions, spec_cmp; cbn [nums letter pre pre_n post post_n rev].
+  rewrite compare_ladder_is_hand.
+  unfold compare_versions_hand, spec_cmp; cbn [nums letter pre pre_n post post_n rev].
   rewrite numbers_cmp. rewrite !ladder_cmp.
   destruct (pre_pair _ _ _ _ Hpa Hpb) as (P & _ & _). rewrite P.
   destruct (post_pair _ _ _ _ Hqa Hqb) as (Q & _ & _). rewrite Q.
@@ -275,8 +316,12 @@ Proof.
 Qed.
 
 (* ---------- includesVersion = the spec's ~ ---------------------------------- *)
-Lemma nums_prefix_spec r a : nums_prefix r a = is_prefix_z r a.
-Proof. revert a; induction r as [|x r IH]; destruct a; simpl; auto; rewrite IH; reflexivity. Qed.
+Lemma loop_prefix_spec r a : (List.length r <= List.length a)%nat ->
+  loop_prefix r a = Some (is_prefix_z r a).
+Proof.
+  revert a; induction r as [|x r IH]; destruct a as [|y a]; simpl; intros H; try reflexivity; try lia.
+  destruct (x =? y); [apply IH; lia | reflexivity].
+Qed.
 
 Lemma is_prefix_z_len r a : is_prefix_z r a = true -> (List.length r <= List.length a)%nat.
 Proof.
@@ -284,33 +329,40 @@ Proof.
   apply andb_true_iff in H. destruct H as [_ H]. apply IH in H. lia.
 Qed.
 
+(* includesVersion never indexes out of range and equals the spec's ~ *)
 Lemma includes_is_spec a r va vr : abs a = Some va -> abs r = Some vr ->
-  includes_version a r = spec_tilde va vr.
+  includes_version_res a r = Some (spec_tilde va vr).
 Proof.
   unfold abs. destruct (decode_pre (m_pre a)) as [pa|] eqn:Hpa; [|discriminate].
   destruct (decode_post (m_post a)) as [qa|] eqn:Hqa; [|discriminate].
   destruct (decode_pre (m_pre r)) as [pr|] eqn:Hpr; [|discriminate].
   destruct (decode_post (m_post r)) as [qr|] eqn:Hqr; [|discriminate].
   intros Ha Hr. inversion Ha; inversion Hr; subst; clear Ha Hr.
-  unfold includes_version, spec_tilde; cbn [nums letter pre pre_n post post_n rev].
-  rewrite nums_prefix_spec.
+  rewrite includes_ladder_is_hand.
+  unfold includes_version_hand, spec_tilde; cbn [nums letter pre pre_n post post_n rev].
   destruct (pre_pair _ _ _ _ Hpa Hpr) as (_ & P1 & _).
   destruct (pre_pair _ _ _ _ Hpr Hpr) as (_ & _ & P2).
   destruct (post_pair _ _ _ _ Hqa Hqr) as (_ & Q1 & _).
   destruct (post_pair _ _ _ _ Hqr Hqr) as (_ & _ & Q2).
   unfold presuf_eqb, postsuf_eqb. rewrite <- P1, <- P2, <- Q1, <- Q2.
   set (la := Z.of_nat (List.length (m_nums a))). set (lr := Z.of_nat (List.length (m_nums r))).
-  destruct (is_prefix_z (m_nums r) (m_nums a)) eqn:Hp.
-  - apply is_prefix_z_len in Hp.
-    assert (Hle : lr <= la) by (unfold la, lr; lia).
-    destruct (la <? lr) eqn:A; [apply Z.ltb_lt in A; lia|].
-    cbn [negb andb]. rewrite Z.gtb_ltb.
+  destruct (la <? lr) eqn:A.
+  - apply Z.ltb_lt in A.
+    destruct (is_prefix_z (m_nums r) (m_nums a)) eqn:Hp; [|reflexivity].
+    apply is_prefix_z_len in Hp. unfold la, lr in A. lia.
+  - apply Z.ltb_ge in A.
+    rewrite loop_prefix_spec by (unfold la, lr in A; lia).
+    destruct (is_prefix_z (m_nums r) (m_nums a)) eqn:Hp; [|reflexivity].
+    cbn [andb]. rewrite Z.gtb_ltb.
     destruct (lr <? la); [reflexivity|].
     destruct (m_letter r =? 0), (m_letter a =? m_letter r), (m_pre r =? pre_None), (m_pre a =? m_pre r),
       (m_pre_n r =? 0), (m_pre_n a =? m_pre_n r), (m_post r =? post_None), (m_post a =? m_post r),
       (m_post_n r =? 0), (m_post_n a =? m_post_n r), (m_rev r =? 0), (m_rev a =? m_rev r); reflexivity.
-  - destruct (la <? lr); reflexivity.
 Qed.
+
+Lemma includes_bool_is_spec a r va vr : abs a = Some va -> abs r = Some vr ->
+  includes_version a r = spec_tilde va vr.
+Proof. intros Ha Hr. unfold includes_version. rewrite (includes_is_spec a r va vr Ha Hr). reflexivity. Qed.
 
 (* ---------- operators ------------------------------------------------------- *)
 Definition op_accepts (op : vop) (c : comparison) : bool :=
@@ -351,7 +403,7 @@ Proof.
   intros Hin Ha Hr. pose proof matcher_rows_ok_true as T. unfold matcher_rows_ok in T.
   rewrite forallb_forall in T. specialize (T row Hin). cbv zeta in T.
   unfold satisfies. destruct (snd row =? dep_versionTilde) eqn:Ht.
-  - destruct (vop_of_string (fst row)); try discriminate. simpl. apply includes_is_spec; assumption.
+  - destruct (vop_of_string (fst row)); try discriminate. simpl. apply includes_bool_is_spec; assumption.
   - apply andb_true_iff in T. destruct T as [T1 T2].
     rewrite spec_sat_accepts by (intro E; rewrite E in T1; discriminate).
     rewrite (compare_is_spec a r va vr Ha Hr).
